@@ -255,7 +255,7 @@ fn math_atom(r: &mut Rng, depth: usize) -> String {
     if depth == 0 {
         return r.pick(&MATH_ATOMS).to_string();
     }
-    match r.below(20) {
+    match r.below(24) {
         0 => format!("{}_{}", r.pick(&MATH_ATOMS[..8]), math_atom(r, 0)),
         1 => format!("{}^{}", r.pick(&MATH_ATOMS[..8]), math_atom(r, 0)),
         2 => format!("{}_({})^({})", r.pick(&MATH_ATOMS[..8]), math_seq(r, 2, depth - 1), math_seq(r, 2, depth - 1)),
@@ -275,6 +275,10 @@ fn math_atom(r: &mut Rng, depth: usize) -> String {
         16 => format!("{}{}", r.pick(&MATH_ATOMS[..5]), r.pick(&MATH_ATOMS[..5])),
         17 => format!("cases({} \"if\" {}, {} \"else\")", math_atom(r, 0), math_atom(r, 0), math_atom(r, 0)),
         18 => format!("{}({} {}: {})", r.pick(&MATH_FUNCS), math_atom(r, 0), ident(r), math_atom(r, 0)).replace(" x:", ", x:").replace(" y:", ", y:"),
+        // embedded calls with arguments AND a trailing content block as operands of attach / fraction / root
+        19 => format!("{}^#text(red)[{}]", r.pick(&MATH_ATOMS[..8]), r.below(9)),
+        20 => format!("{}_#box(stroke: red)[{}] / #text(blue)[{}]", r.pick(&MATH_ATOMS[..8]), r.below(9), r.below(9)),
+        21 => format!("√#strong[{}]", r.below(9)),
         _ => r.pick(&MATH_ATOMS).to_string(),
     }
 }
@@ -482,7 +486,7 @@ pub fn gen_table(i: u64) -> Option<String> {
 // ------------------------------------------------------------------------------------------------
 // nesting families
 
-pub const NEST_FAMILIES: usize = 24;
+pub const NEST_FAMILIES: usize = 26;
 
 /// Wrap `inner` with wrapper `w`. Code-level wrappers take/return a code expression.
 pub fn wrap(w: usize, inner: &str) -> String {
@@ -511,7 +515,10 @@ pub fn wrap(w: usize, inner: &str) -> String {
         20 => format!("a.b.c({})", inner),
         21 => format!("configuration_registry.default_settings.with_overrides({})", inner),
         22 => format!("a.b.c(k: {})", inner),
-        _ => format!("f(x => a.b.c({}))", inner),
+        23 => format!("f(x => a.b.c({}))", inner),
+        // closures whose body takes optional delimiters, nested through a call argument
+        24 => format!("v => 1 + f({})", inner),
+        _ => format!("v => -g({}).h", inner),
     }
 }
 
